@@ -155,6 +155,10 @@ class _Canon(ast.NodeTransformer):
         if node.orelse and not (len(node.orelse) == 1 and isinstance(node.orelse[0], ast.If)) \
                 and isinstance(t, ast.UnaryOp) and isinstance(t.op, ast.Not):
             node.test, node.body, node.orelse = t.operand, node.orelse, node.body
+        elif len(node.orelse) == 1 and isinstance(node.orelse[0], (ast.Break, ast.Continue, ast.Return, ast.Raise)) and isinstance(t, ast.Name) \
+                and not isinstance(node.body[-1], (ast.Break, ast.Continue, ast.Return, ast.Raise)):
+            # `if x: A else: <jump>`  ->  `if not x: <jump> else: A`  (then de-else'd): the jump-first spelling is the one the package uses
+            node.test, node.body, node.orelse = ast.copy_location(ast.UnaryOp(op=ast.Not(), operand=t), t), node.orelse, node.body
         return node
 
 
@@ -520,6 +524,62 @@ def _inline_new_constants(trees, known):
         Sub().visit(t)
         FoldF().visit(t)
         ast.fix_missing_locations(t)
+
+
+class _FlagLoops(ast.NodeTransformer):
+    """Normal form (behaviour-preserving): `flag = False` ... `while not flag: B` where `flag` is set (to True) only as the last action of an iteration -- i.e. in tail
+    positions of B -- and read nowhere else, is read as `while True: B'` with `break` in place of `flag = True`; a name-only test `if x: A else: <jump>` is then turned so
+    that the jump comes first (`if not x: <jump>` ; A)."""
+
+    def visit_FunctionDef(self, node):
+        self.generic_visit(node)
+        for ch in ast.walk(node):
+            for field in ('body', 'orelse', 'finalbody'):
+                v = getattr(ch, field, None)
+                if isinstance(v, list) and v and isinstance(v[0], ast.stmt):
+                    setattr(ch, field, self._block(v, node))
+        return node
+
+    visit_AsyncFunctionDef = visit_FunctionDef
+
+    def _block(self, stmts, fn):
+        out = []
+        for i, st in enumerate(stmts):
+            if isinstance(st, ast.While) and not st.orelse and isinstance(st.test, ast.UnaryOp) and isinstance(st.test.op, ast.Not) and isinstance(st.test.operand, ast.Name):
+                flag = st.test.operand.id
+                prev = out[-1] if out else None
+                init_ok = isinstance(prev, ast.Assign) and len(prev.targets) == 1 and isinstance(prev.targets[0], ast.Name) and prev.targets[0].id == flag \
+                    and isinstance(prev.value, ast.Constant) and prev.value.value is False
+                uses = [n for n in ast.walk(fn) if isinstance(n, ast.Name) and n.id == flag]
+                sets = [n for n in ast.walk(st) if isinstance(n, ast.Assign) and len(n.targets) == 1 and isinstance(n.targets[0], ast.Name) and n.targets[0].id == flag]
+                # uses: the init, the test, and the sets -- nothing else
+                if init_ok and sets and len(uses) == 2 + len(sets) and all(isinstance(x.value, ast.Constant) and x.value.value is True for x in sets) and self._tail_only(st.body, sets):
+                    for x in sets:
+                        self._replace(st, x, ast.copy_location(ast.Break(), x))
+                    st.test = ast.copy_location(ast.Constant(True), st.test)
+                    out.pop()   # the initialisation of the flag
+            out.append(st)
+        return out
+
+    def _tail_only(self, body, sets):
+        """every statement of `sets` is the last statement executed in an iteration: last of the body, or last of an if-arm that is last ..."""
+        def tails(stmts):
+            if not stmts:
+                return []
+            last = stmts[-1]
+            if isinstance(last, ast.If):
+                return tails(last.body) + tails(last.orelse)
+            return [last]
+        t = tails(body)
+        inner_loops = [n for s_ in body for n in ast.walk(s_) if isinstance(n, (ast.For, ast.While))]
+        return all(any(x is y for y in t) for x in sets) and not any(any(x is y for y in ast.walk(lp)) for lp in inner_loops for x in sets)
+
+    def _replace(self, root, old, new):
+        for n in ast.walk(root):
+            for field in ('body', 'orelse', 'finalbody'):
+                v = getattr(n, field, None)
+                if isinstance(v, list) and old in v:
+                    v[v.index(old)] = new
 
 
 class _DropLocalAnnotations(ast.NodeTransformer):
@@ -1176,6 +1236,7 @@ class Program:
             tree = _CallConvention(sigs, conv).visit(tree)
             tree = _DropLocalAnnotations().visit(tree)
             tree = _LoopForms().visit(tree)
+            tree = _FlagLoops().visit(tree)
             ast.fix_missing_locations(tree)
             tree = _DeWalrus().visit(tree)
             tree = _StatementForms().visit(tree)
